@@ -183,6 +183,12 @@ func genC07(seed uint64, idx int, tier string) *Scenario {
 		}
 		sc.Actors = append(sc.Actors, a)
 	}
+	if !badStart && NewRng(seed, "c07/symlink").Chance(0.2) {
+		// the configured path is a symbolic link to a file elsewhere (a log directory on another volume); an external
+		// removal then takes the file behind the link away, the link stays
+		sc.Params["symlink"] = true
+		class += " symlinked-path"
+	}
 	sc.Class = fmt.Sprintf("max=%d %s", maxsize, class)
 	sc.Schedule = r.Schedule(80)
 	sc.DrainMs = 5000
@@ -248,6 +254,10 @@ func runC07(t *testing.T, sc *Scenario) Result {
 			st.logdir = filepath.Join(dir, "log")
 			os.MkdirAll(st.logdir, 0755)
 			os.WriteFile(filepath.Join(dir, "notadir"), []byte("x"), 0644)
+			if sc.ParamBool("symlink") {
+				os.MkdirAll(filepath.Join(dir, "vol"), 0755)
+				os.Symlink(filepath.Join(dir, "vol", "data.log"), filepath.Join(st.logdir, "events.log"))
+			}
 			// lines of an earlier run (written the way the channel writes them: one JSON object per line)
 			if pr, ok := sc.Params["prior"].([]interface{}); ok && len(pr) > 0 {
 				var buf bytes.Buffer
@@ -333,7 +343,14 @@ func runC07(t *testing.T, sc *Scenario) Result {
 				}
 				q <- ev
 			case "fsremove":
-				if os.Remove(active) == nil {
+				victim := active
+				if fi, err := os.Lstat(active); err == nil && fi.Mode()&os.ModeSymlink != 0 {
+					if tg, err := os.Readlink(active); err == nil {
+						victim = tg
+						res.probe("file-behind-the-link-removed", 1)
+					}
+				}
+				if os.Remove(victim) == nil {
 					res.fault("active-file-removed", 1)
 				}
 				st.lastFault = w.nowMs()
@@ -379,6 +396,10 @@ func runC07(t *testing.T, sc *Scenario) Result {
 		for _, e := range ents {
 			if strings.HasPrefix(e.Name(), "events.log") {
 				data, err := os.ReadFile(filepath.Join(st.logdir, e.Name()))
+				if fi, lerr := os.Lstat(filepath.Join(st.logdir, e.Name())); err != nil && lerr == nil && fi.Mode()&os.ModeSymlink != 0 && os.IsNotExist(err) {
+					// a link to a file that is gone holds no lines: whatever was sent and is in no other file is lost
+					data, err = nil, nil
+				}
 				if err != nil {
 					st.readErr = err.Error()
 				}
